@@ -145,6 +145,14 @@ func (s *sched) point(t int, c vstore.Call, opBoundary bool) {
 	atomic.AddInt64(&s.progress, 1)
 	s.mu.Lock()
 	s.pending[t], s.pendOp[t] = c, opBoundary
+	if s.stalled[t] {
+		// a stalled thread got its lock and arrives here while another thread has the processor: it parks as an
+		// ordinary enabled thread; the decision that picks it lets it go on
+		s.stalled[t] = false
+		s.mu.Unlock()
+		<-s.wake[t]
+		return
+	}
 	s.mu.Unlock()
 	s.settle()
 	s.mu.Lock()
@@ -190,20 +198,25 @@ func (s *sched) exit(t int) {
 	atomic.AddInt64(&s.progress, 1)
 	s.mu.Lock()
 	s.done[t] = true
-	all := true
-	for _, d := range s.done {
-		all = all && d
-	}
-	if all {
-		s.cur = -1
+	if s.stalled[t] {
+		// a stalled thread that ran to its end beside the thread that has the processor: that thread goes on deciding
+		s.stalled[t] = false
 		s.mu.Unlock()
-		s.finished <- ""
 		return
 	}
 	s.mu.Unlock()
 	s.settle()
 	s.mu.Lock()
 	defer s.mu.Unlock()
+	all := true
+	for _, d := range s.done {
+		all = all && d
+	}
+	if all {
+		s.cur = -1
+		s.finished <- ""
+		return
+	}
 	next := s.decide(-1, fmt.Sprintf("t%d:end", t))
 	if next < 0 {
 		s.aborted = true
@@ -354,6 +367,7 @@ type execution struct {
 	finalFs []Finding
 	abort   string
 	obs     string // canonical text of all observations (determinism check)
+	stalls  int    // threads found blocked on a lock below the scheduler (clover's own, or bbolt's) during this execution
 }
 
 // isConflict: the store refused the transaction (optimistic conflict, or badger's per-transaction size limit): the
@@ -446,6 +460,9 @@ func runSchedule(in *drv.Inst, snap []vstore.KV, sc *Scenario, mode string, pref
 			s.writer = -1
 		}
 		s.mu.Unlock()
+		if atomic.LoadInt32(&s.anyStall) != 0 && s.parkResumed(t, c) {
+			return // (a thread that was blocked inside this very store call)
+		}
 		if (c.Kind == vstore.Commit || c.Kind == vstore.Rollback) && !c.Done && s.mode != ModeReduced && !s.aborted {
 			// a point right AFTER a transaction ended and before the operation returns: an operation that still uses
 			// memory it obtained inside the transaction (bbolt hands out slices of its mmap) is exposed to the commits
@@ -534,6 +551,12 @@ func runSchedule(in *drv.Inst, snap []vstore.KV, sc *Scenario, mode string, pref
 		x.abort = why
 	case <-time.After(60 * time.Second):
 		x.abort = "watchdog: the schedule did not finish within 60 s (a thread is blocked outside the scheduler's control)"
+		s.mu.Lock()
+		cur := s.cur
+		s.mu.Unlock()
+		if cur >= 0 {
+			x.abort += fmt.Sprintf("; thread %d has the processor: %s", cur, goroutineTop(s.gids[cur], 12))
+		}
 		s.aborted = true
 	}
 	in.V.Hook, in.V.PostHook = nil, nil
@@ -541,6 +564,9 @@ func runSchedule(in *drv.Inst, snap []vstore.KV, sc *Scenario, mode string, pref
 		drv.ForgetInflight(in) // the parked threads of an aborted schedule never return
 	}
 	x.points = s.points
+	s.mu.Lock()
+	x.stalls = s.stalls
+	s.mu.Unlock()
 	for _, p := range s.points {
 		x.choices = append(x.choices, p.choice)
 	}
@@ -846,7 +872,9 @@ func SchedExplore(cfg *SchedConfig, run *ev.Run) {
 			bad = true
 			// determinism: the same schedule must reproduce the same observations before the failure is believed
 			y := runSchedule(w.in, snap, sc, cfg.Mode, x.choices)
-			if y.obs != x.obs {
+			if y.obs != x.obs && x.stalls+y.stalls > 0 {
+				report("nonlinearizable", x, "no sequential order of the operations consistent with real time explains the observed results and final state (the execution involved a thread blocked on a lock below the scheduler and does not replay step by step): "+describeHist(x))
+			} else if y.obs != x.obs {
 				report("harness", x, "the same schedule produced different observations when replayed: nondeterminism outside the scheduler's control")
 			} else {
 				report("nonlinearizable", x, "no sequential order of the operations consistent with real time explains the observed results and final state: "+describeHist(x))
@@ -864,8 +892,10 @@ func SchedExplore(cfg *SchedConfig, run *ev.Run) {
 		}
 	}
 	// depth-first enumeration; the first levels are expanded sequentially to produce independent subtrees
-	var expand func(w *schedWorker, prefix []int, depthLimit int, out *[][]int, parentTrace string)
-	expand = func(w *schedWorker, prefix []int, depthLimit int, out *[][]int, parentTrace string) {
+	divergedAfterBlock := 0
+	subtreeStalls := []int{} // per subtree root: the stalls of the execution its prefix was taken from
+	var expand func(w *schedWorker, prefix []int, depthLimit int, out *[][]int, parentTrace string, parentStalls int)
+	expand = func(w *schedWorker, prefix []int, depthLimit int, out *[][]int, parentTrace string, parentStalls int) {
 		if cfg.Budget > 0 && time.Since(start) > cfg.Budget {
 			capped = true
 			return
@@ -879,6 +909,20 @@ func SchedExplore(cfg *SchedConfig, run *ev.Run) {
 		x := runSchedule(w.in, snap, sc, cfg.Mode, prefix)
 		if os.Getenv("VERIF_SCHED_DEBUG") != "" && strings.HasPrefix(x.abort, "replay") {
 			x.abort += " | parent trace: " + parentTrace
+		}
+		if strings.HasPrefix(x.abort, "replay") && parentStalls+x.stalls > 0 {
+			// the execution this prefix was taken from had a thread blocked on a lock below the scheduler (e.g. a bbolt
+			// commit that had to grow the file waited for an open read transaction): whether that happens depends on
+			// the file's size, which executions leave behind; the prefix does not replay and its subtree is skipped
+			mu.Lock()
+			divergedAfterBlock++
+			mu.Unlock()
+			w.in.Abandon()
+			n := drv.MustOpen(cfg.Backend)
+			n.OnOpen = pregrowIfBBolt
+			pregrowIfBBolt(n)
+			*w.in = *n
+			return
 		}
 		checkExec(w, x)
 		myTrace := traceOf(x.points)
@@ -895,16 +939,17 @@ func SchedExplore(cfg *SchedConfig, run *ev.Run) {
 				np := append(append([]int{}, x.choices[:i]...), alt)
 				if out != nil && len(np) > depthLimit {
 					*out = append(*out, np)
+					subtreeStalls = append(subtreeStalls, x.stalls)
 				} else {
-					expand(w, np, depthLimit, out, myTrace)
+					expand(w, np, depthLimit, out, myTrace, x.stalls)
 				}
 			}
 		}
 	}
 	subtrees := [][]int{}
-	expand(getW(0), nil, 3, &subtrees, "")
+	expand(getW(0), nil, 3, &subtrees, "", 0)
 	ParallelFor(len(subtrees), 0, func(wi, i int) {
-		expand(getW(wi), subtrees[i], 0, nil, "")
+		expand(getW(wi), subtrees[i], 0, nil, "", subtreeStalls[i])
 	})
 	pfx := strings.ReplaceAll(name, "/", "_") + "_"
 	run.Set(pfx+"seconds", float64(int(time.Since(start).Seconds()*10))/10)
@@ -919,6 +964,9 @@ func SchedExplore(cfg *SchedConfig, run *ev.Run) {
 	run.Add("states", int64(len(outcomes)))
 	run.Add("transitions", int64(schedules))
 	run.Add("schedules_with_preemption", int64(withPreempt))
+	if divergedAfterBlock > 0 {
+		run.NotExhaustive(fmt.Sprintf("%s: %d schedule prefixes taken from executions in which a thread was blocked below the scheduler did not replay; their subtrees were skipped", name, divergedAfterBlock))
+	}
 	if stopped {
 		run.NotExhaustive(fmt.Sprintf("%s: exploration ended at the first aborted schedule (reported as a violation)", name))
 	}
@@ -996,12 +1044,12 @@ func hashString(s string) uint32 {
 // pregrow makes the bbolt file large enough that no commit of a scenario has to remap it (a remap waits for
 // every open read transaction, which the cooperative scheduler may have parked).
 func pregrowIfBBolt(in *drv.Inst) {
-	if in.Backend != drv.BBolt {
+	if in.Backend != drv.BBolt || os.Getenv("VERIF_NO_PREGROW") != "" { // (the knob exists to exercise the stall detection on bbolt's memory-map lock)
 		return
 	}
 	drv.Exec(in, m.Op{K: "createColl", Coll: "__grow"})
 	docs := []m.Doc{}
-	for i := 0; i < 400; i++ {
+	for i := 0; i < 4000; i++ {
 		docs = append(docs, m.Doc{"_id": ID(900000 + i), "pad": strings.Repeat("x", 2000)})
 	}
 	drv.Exec(in, m.Op{K: "insert", Coll: "__grow", Docs: docs})
@@ -1023,6 +1071,35 @@ func goid() int64 {
 }
 
 const cloverModule = "github.com/ostafen/clover/v2"
+
+// goroutineTop: wait state and innermost frames of one goroutine (diagnostics for the watchdog).
+func goroutineTop(id int64, frames int) string {
+	buf := make([]byte, 4<<20)
+	buf = buf[:runtime.Stack(buf, true)]
+	hdr := []byte(fmt.Sprintf("goroutine %d [", id))
+	i := bytes.Index(buf, hdr)
+	if i < 0 {
+		return "(goroutine not found)"
+	}
+	body := buf[i:]
+	if e := bytes.Index(body, []byte("\n\n")); e >= 0 {
+		body = body[:e]
+	}
+	out := []string{}
+	for _, ln := range strings.Split(string(body), "\n") {
+		if strings.HasPrefix(ln, "\t") {
+			continue
+		}
+		if k := strings.IndexByte(ln, '('); k > 0 && !strings.HasPrefix(ln, "goroutine") {
+			ln = ln[:k]
+		}
+		out = append(out, ln)
+		if len(out) > frames {
+			break
+		}
+	}
+	return strings.Join(out, " <- ")
+}
 
 // goroutineStates reports, for each goroutine id, whether it is blocked on a synchronisation primitive with a
 // function of clover itself as the innermost frame that is not runtime or sync code. One call takes one consistent
@@ -1071,7 +1148,10 @@ func goroutineStates(ids []int64) map[int64]bool {
 			if strings.HasPrefix(ln, "runtime.") || strings.HasPrefix(ln, "sync.") || strings.HasPrefix(ln, "sync/") || strings.HasPrefix(ln, "internal/") {
 				continue
 			}
-			out[id] = strings.HasPrefix(ln, cloverModule)
+			// clover's own locks, and bbolt's (it has no goroutines of its own: a client that waits for its writer lock
+			// or for the memory-map lock - a commit that must grow the file waits for every open read transaction -
+			// waits for another client thread, which the scheduler may have parked)
+			out[id] = strings.HasPrefix(ln, cloverModule) || (strings.HasPrefix(ln, "go.etcd.io/bbolt.") && strings.HasPrefix(state, "sync."))
 			if out[id] && os.Getenv("VERIF_SCHED_DEBUG") == "2" {
 				fmt.Fprintf(os.Stderr, "STALL goroutine %d [%s]\n%s\n\n", id, state, strings.Join(lines[:min(len(lines), 14)], "\n"))
 			}
